@@ -143,6 +143,13 @@ Proof.
   - apply Hm. apply get_all_In. eauto.
 Qed.
 
+Lemma good_line_value nv : good_line nv -> forallb value_char (snd nv) = true.
+Proof.
+  intros [_ V]. unfold field_value_ok in V. destruct (snd nv) as [|c0 s0] eqn:E; [reflexivity|].
+  apply andb_true_iff in V as [_ V]. apply forallb_forall. intros c Hc. rewrite forallb_forall in V. specialize (V c Hc).
+  unfold field_vchar, is_hws, value_char, in_range in *. lia.
+Qed.
+
 Lemma good_line_checks nv : good_line nv ->
   is_token (fst nv) = true /\ forallb (fun c => c <? 256) (fst nv ++ t ": " ++ snd nv) = true /\
   has_crlf (fst nv ++ t ": " ++ snd nv) = false.
@@ -164,13 +171,14 @@ Proof. intros H. unfold hm_get. rewrite hm_find_set, H. reflexivity. Qed.
 Lemma write_headers_writes v11 m rh code reason ho chunk start :
   (forall nv, In nv (hm_get_all ho) -> good_line nv) ->
   utf8_encode (t "HTTP/1.1 " ++ dec_N code ++ [32] ++ reason) = Some start -> has_crlf start = false ->
+  reason_ok reason = true ->
   (no_body_code code = true \/ hm_mem k_clen ho = true) ->
   (text_eqb m (t "HEAD") = true \/ no_body_code code = true -> chunk = []) ->
   (text_eqb m (t "HEAD") = false -> no_body_code code = false ->
      exists v, hm_get k_clen ho = Some v /\ int_digits v = Some (N.of_nat (List.length chunk))) ->
   exists wh, write_headers v11 m rh code reason ho chunk = Wire start wh chunk.
 Proof.
-  intros Hlines Hstart Hcr Hnc Hempty Hcl. unfold write_headers.
+  intros Hlines Hstart Hcr Hreason Hnc Hempty Hcl. unfold write_headers.
   set (is_head := text_eqb m (t "HEAD")) in *. set (disc := negb (can_keep_alive v11 m rh)).
   set (h1 := if v11 && disc then hm_set k_conn (t "close") ho else ho).
   set (disc' := if negb v11 && negb is_head && negb (no_body_code code) && negb (hm_mem k_clen h1) then true else disc).
@@ -199,7 +207,10 @@ Proof.
       + exists (Some 0). split; [reflexivity|]. rewrite (Hempty (or_intror eq_refl)). reflexivity.
       + destruct (Hcl eq_refl eq_refl) as [v [Hg Hi]]. rewrite Hg, Hi. eexists. split; [reflexivity|].
         destruct chunk; [reflexivity|]. apply N.ltb_irrefl. }
-  destruct Eex as [ex [-> Htm]].
+  destruct Eex as [ex [-> Htm]]. rewrite Hreason. cbn [negb].
+  assert (Vs : forallb (fun nv => forallb value_char (snd nv)) (hm_get_all h2) = true).
+  { apply forallb_forall. intros nv Hin. exact (good_line_value nv (L2 nv Hin)). }
+  rewrite Vs. cbn [negb].
   assert (T : forallb (fun nv => is_token (fst nv)) (hm_get_all h2) = true).
   { apply forallb_forall. intros nv Hin. exact (proj1 (good_line_checks nv (L2 nv Hin))). }
   rewrite T. cbn [negb].
@@ -244,7 +255,7 @@ Proof.
   intros Hver Hok. unfold app_ok in Hok. unfold handle_request. fold (app_body o) in *. fold (sent_body r o).
   destruct (a_start o) as [[status hs]|]; [|discriminate].
   apply andb_true_iff in Hok as [Hok Hcl]. apply andb_true_iff in Hok as [Hok Hnb]. apply andb_true_iff in Hok as [Hst Hhs].
-  destruct (status_ok_inv status Hst) as [x [y [z [rs [Es [Ep [Ei [Ed [Ha Hc]]]]]]]]].
+  destruct (status_ok_inv status Hst) as [x [y [z [rs [Es [Ep [Ei [Ed [Ha [Hc Hro]]]]]]]]]].
   rewrite Ep. cbn [negb]. rewrite Ei. set (code := status_code status) in *.
   assert (Hvalid : forallb valid_hdr hs = true).
   { apply forallb_forall. intros nv Hin. rewrite forallb_forall in Hhs. specialize (Hhs nv Hin).
@@ -267,7 +278,7 @@ Proof.
     replace (hname_eq k_server k_clen) with false by reflexivity.
     rewrite !andb_false_r, andb_true_r, !app_nil_r. reflexivity. }
   destruct (write_headers_writes (r_v11 r) (r_method r) (q_headers a) code rs ho (sent_body r o)
-              (t "HTTP/1.1 " ++ dec_N code ++ [32] ++ rs)) as [wh Hw]; [| | | | | |exists (t "HTTP/1.1 " ++ dec_N code ++ [32] ++ rs), wh; exact Hw].
+              (t "HTTP/1.1 " ++ dec_N code ++ [32] ++ rs)) as [wh Hw]; [| | | | | | |exists (t "HTTP/1.1 " ++ dec_N code ++ [32] ++ rs), wh; exact Hw].
   - exact (ho_lines _ _ Ea).
   - exact Hstart.
   - unfold has_crlf in *. rewrite !existsb_app, Hc. rewrite orb_false_r.
@@ -275,6 +286,7 @@ Proof.
     destruct (existsb (fun c => (c =? 13) || (c =? 10)) (dec_N code)) eqn:E.
     + apply existsb_exists in E as [q [Hq E]]. rewrite forallb_forall in Hd. specialize (Hd q Hq). apply is_digit_spec in Hd. lia.
     + reflexivity.
+  - exact Hro.
   - destruct (no_body_code code) eqn:EN; [left; reflexivity|right].
     unfold hm_mem. rewrite Hfind, Hvals, (no_body_304 code EN), app_has_clen. cbn [negb andb].
     destruct (values_of k_clen hs); reflexivity.
